@@ -438,6 +438,11 @@ class Ctx:
                     f['case'] = state['last']
                     f['size'] = len(canon(state['last']))
                     f['shrunk'] = 'hypothesis'
+                    r2 = Rec(rec.prop_id, rec.known)
+                    r2.run_case(checks, kind, state['last'])
+                    det = [d for bb, d in r2._case_fails if bb == b]
+                    if det:
+                        f['detail'] = det[0]
                 remaining -= min(state['n'], remaining)
             except hypothesis.errors.Unsatisfiable as e:
                 raise HarnessError('generator unsatisfiable: %s' % e)
